@@ -1,7 +1,7 @@
 // SPDX-FileCopyrightText: Copyright (c) 2022-2025 Objectionary.com
 // SPDX-License-Identifier: MIT
 
-use crate::{Label, Persistence, Sodg};
+use crate::{Label, Persistence, Sodg, BRANCH_NONE};
 use itertools::Itertools;
 
 impl<const N: usize> Sodg<N> {
@@ -46,6 +46,7 @@ digraph {
         for (v, vtx) in self
             .vertices
             .iter()
+            .filter(|(_, vtx)| vtx.branch != BRANCH_NONE)
             .sorted_by_key(|(v, _)| <usize>::clone(v))
         {
             lines.push(format!(
